@@ -350,7 +350,27 @@ func buildOverlay(mut string) (map[string][]byte, map[string][]byte, error) {
 		ov[filepath.Join(repoDir, "zz_verif_"+filepath.Base(f))] = src
 	}
 	mutated := map[string][]byte{}
-	if mut != "" { // file:::old:::new  (overlay mutation, /repo untouched)
+	if strings.HasPrefix(mut, "dir:") { // a patched copy of /repo: every non-test source that differs is overlaid
+		dir := strings.TrimPrefix(mut, "dir:")
+		srcs, _ := filepath.Glob(filepath.Join(dir, "*.go"))
+		for _, f := range srcs {
+			if strings.HasSuffix(f, "_test.go") || strings.HasPrefix(filepath.Base(f), "zz_") {
+				continue
+			}
+			m, err := os.ReadFile(f)
+			if err != nil {
+				return nil, nil, err
+			}
+			orig, _ := os.ReadFile(filepath.Join(repoDir, filepath.Base(f)))
+			if string(orig) != string(m) {
+				ov[filepath.Join(repoDir, filepath.Base(f))] = m
+				mutated[filepath.Join(repoDir, filepath.Base(f))] = m
+			}
+		}
+		if len(mutated) == 0 {
+			return nil, nil, fmt.Errorf("-mut dir: no file differs from %s", repoDir)
+		}
+	} else if mut != "" { // file:::old:::new  (overlay mutation, /repo untouched)
 		parts := strings.Split(mut, ":::")
 		if len(parts) != 3 {
 			return nil, nil, fmt.Errorf("bad -mut")
